@@ -410,6 +410,21 @@ let do_pyr (op : string) (a : string array) : string =
   | "py.border" -> out_fmt fmt_py (py_add_border bbox_add_border_variant (py_of a.(0)) (n 1) (n 2) (n 3) (n 4))
   | _ -> "?py-op"
 
+(* ---------- C01 / C16 member names, C03 MBTiles bounds ---------- *)
+let do_name (a : string list) : string =
+  match a with
+  | [s] -> (match parse_member (cps_of s) with
+      | Some ((((z, x), y), f), c) -> Printf.sprintf "tile %s %s %s %s %s" (string_of_n z) (string_of_n x) (string_of_n y) (string_of_n f) (string_of_n c)
+      | None -> "other")
+  | _ -> "other"
+let do_mbrows (a : string list) : string =
+  match a with
+  | [s] -> let rows = List.map (fun t -> match split_on ':' t with [c; r] -> (n_of_string c, n_of_string r) | _ -> failwith "row") (split_on ',' s) in
+      (match level_bounds mbtiles_row_variant rows with
+       | Some (((x0, y0), x1), y1) -> Printf.sprintf "%s %s %s %s" (string_of_n x0) (string_of_n y0) (string_of_n x1) (string_of_n y1)
+       | None -> "none")
+  | _ -> "?mbrows-args"
+
 (* ---------- dispatch ---------- *)
 let dispatch (op : string) (args : string list) : string =
   match op with
@@ -421,6 +436,8 @@ let dispatch (op : string) (args : string list) : string =
   | "vpl" -> do_vpl args
   | "vpl.render" -> do_vpl_render args
   | "csv" -> do_csv args
+  | "name" -> do_name args
+  | "mbrows" -> do_mbrows args
   | "tileid" | "idcoord" | "pmdir.ser" | "pmdir.de" | "pmdir.find" | "vtblocks" | "vtindex" -> do_fmt op args
   | "c12.vt" | "c12.pm" | "c12.vthdr" | "c12.pmhdr" -> do_c12 op args
   | "varint" | "svarint" | "mvt.dec" | "mvt.rt" | "mvt.merge" -> do_mvt op args
